@@ -5,8 +5,9 @@ open Irismod.Props.C20
 #print axioms single_family_files_are_module_configs
 #print axioms msgs_registered_and_signed
 #print axioms scalar_customtype_fields_within_known_partial
+#print axioms grpc_service_tables_agree
 #print axioms wire_roundtrip
 #print axioms wire_reencode
 #print axioms varint_roundtrip
 open Irismod.Wire in
-#eval s!"nonvacuous {decodeFields (encodeFields [⟨1, .varint 300⟩, ⟨2, .bytes [1,2,3]⟩, ⟨15, .fixed32 [1,2,3,4]⟩]) == some [⟨1, .varint 300⟩, ⟨2, .bytes [1,2,3]⟩, ⟨15, .fixed32 [1,2,3,4]⟩] && Irismod.Gen.Api.gogoNames.length > 300 && Irismod.Gen.Api.msgs.length > 50}"
+#eval s!"nonvacuous {decodeFields (encodeFields [⟨1, .varint 300⟩, ⟨2, .bytes [1,2,3]⟩, ⟨15, .fixed32 [1,2,3,4]⟩]) == some [⟨1, .varint 300⟩, ⟨2, .bytes [1,2,3]⟩, ⟨15, .fixed32 [1,2,3,4]⟩] && Irismod.Gen.Api.gogoNames.length > 300 && Irismod.Gen.Api.msgs.length > 50 && Irismod.Gen.Api.svcFacts.length > 20}"
